@@ -35,7 +35,7 @@ RULE = ("Case = model kind x composition of 1-6 distinct species from {H, D, T, 
         "zero coefficient) x line (element, charge, transition) x line-shape class (default, Gaussian, multiplet, Zeeman triplet, "
         "parametrised triplet, Zeeman multiplet) x spectral window / bins x pre-filled spectrum x Gaunt source (provider mock, "
         "provider Maxwellian table, user supplied). The same model instance is evaluated at the points in order (plus the pre-filled-spectrum "
-        "calls) and then at the first point again, which must reproduce the first result bit for bit. Oracle = documented formula in plain "
+        "calls) and then at the first point again, which must reproduce the first result bit for bit - and once more after two further instances of the class (same constructor defaults, other plasmas) were built and evaluated. Oracle = documented formula in plain "
         "Python, per point. Non-trivial = at some point emission > 0 and "
         "the composition contains, with positive density, a species the formula must exclude or treat specially: lines - another "
         "charge state / isotope of the line's element (exc, rec) or a bare nucleus other than the receiver or a non-bare receiver "
@@ -58,7 +58,7 @@ TOLERANCES = {
                            "< 1e-4. Bin widths are generated so that the integrand varies by at most e^20 over one bin (order 50 is ample); the Maxwellian table "
                            "is a C1 piecewise cubic in log u with knots 0.2 dex apart, its curvature jumps contribute < 1e-7; a bin that contains the table's seam u = u_min = 1e-4 "
                            "(3.5 % jump to the Born approximation at Te x lambda = 1.24e7 eV nm) has a discontinuous integrand and gets no verdict (label gaunt-seam-bin; measured model error there 2.4e-4). Measured worst model-vs-quad difference over 1000 generated cases: 1.1e-6",
-    "history independence (first point evaluated again at the end)": "bit equality: the same deterministic arithmetic on the same inputs",
+    "history / instance independence (first point evaluated again at the end, and again after other instances were used)": "bit equality: the same deterministic arithmetic on the same inputs",
     "bremsstrahlung linearity": "2e-4 of the largest bin involved (three independent quadratures)",
 }
 REQUIRED_LABELS = ["lines:exc", "lines:rec", "lines:tcx", "lines:guard:ne", "lines:guard:te", "lines:guard:target-n", "lines:guard:target-t",
@@ -330,14 +330,24 @@ def find(case, el, q):
     return None
 
 
-def history(ctx, b, model, sts, first, wmin, wmax, bins):
+def history(ctx, b, model, sts, first, wmin, wmax, bins, name="history", after=None):
     """The first point again, after everything else: must reproduce the first evaluation bit for bit."""
     with ctx.cut("emission"):
         again = emit(b, model, sts[0], wmin, wmax, bins)
     if not np.array_equal(again, first):
         i = int(np.argmax(np.abs(again - first)))
-        ctx.fail("history", "the same model at the same point gave %r the first time and %r after %d other point(s) (bin %d): "
-                 "the emission depends on previously evaluated points" % (float(first[i]), float(again[i]), len(sts) - 1, i))
+        ctx.fail(name, "the same model at the same point gave %r the first time and %r after %s (bin %d): "
+                 "the emission depends on %s" % (float(first[i]), float(again[i]), after or "%d other point(s)" % (len(sts) - 1), i,
+                                                 "other live instances of the same class" if after else "previously evaluated points"))
+
+
+def instances(ctx, b, model, sts, first, wmin, wmax, bins):
+    """Models are independent objects: after further instances of the same class were built (with the same constructor defaults)
+    on other plasmas and evaluated, the first model still returns what it returned at first (class-level / default-argument
+    state shared between instances would show here)."""
+    history(ctx, b, model, sts, first, wmin, wmax, bins, name="instances",
+            after="two more instances of the class were built on other plasmas and evaluated")
+    ctx.label("instances")
 
 
 def seq_labels(ctx, sts, idxs, use_t, prefix="seq", need=None):
@@ -521,6 +531,7 @@ def run_lines(case, ctx):
     tk, _ = line_terms(cs, {j: k * sp[j]["n"]})
     ctx.close(float(gk.sum() * d), math.fsum(tk.values()), "total", rtol=1e-9, info="(point %d after scaling species %d by %r)" % (live[0], j, k))
     ctx.label("linearity", "linearity:target" if j == ti else "linearity:donor")
+    instances(ctx, b, model, sts, res[0][0], wmin, wmax, bins)
 
 
 # ----------------------------------------------------------------------------------------------- total radiated power
@@ -624,6 +635,7 @@ def run_trp(case, ctx):
         ctx.close(gk, np.full(bins, pk / (FOUR_PI * (wmax - wmin))), "uniform-bins", rtol=1e-9,
                   info="(point %d after scaling species %d by %r)" % (live[0], j, k))
         ctx.label("linearity")
+        instances(ctx, b, model, sts, res[0][0], wmin, wmax, bins)
 
 
 # ----------------------------------------------------------------------------------------------- bremsstrahlung
@@ -772,6 +784,7 @@ def run_brems(case, ctx):
         ctx.fail("linearity", "point %d, bin %d: E(k n)=%r but E(0) + k (E(n) - E(0)) = %r (k=%r, species %d %s%d+)"
                  % (live[0], i, float(gk[i]), float(g0[i] + k * (got[i] - g0[i])), k, j, sp[j]["el"], sp[j]["q"]))
     ctx.label("linearity")
+    instances(ctx, b, model, sts, res[0][0], wmin, wmax, bins)
 
 
 SUBCHECKS = {
